@@ -2121,7 +2121,8 @@ def read_lines(path_or_source, *, include=False, include_dirs=None):
     current_dirs.append(base_path)
 
     lines = []
-    for i, raw_line in enumerate(source.splitlines(), start=1):
+    # a line ends at LF, CR LF or CR (str.splitlines would also break at form feeds, U+2028 etc.)
+    for i, raw_line in enumerate(re.split(r'\r\n|\r|\n', source), start=1):
         # skip empty lines
         if len(raw_line.strip()) == 0:
             continue
